@@ -374,6 +374,14 @@ def run_verus(unit: VerusUnit, obs_by_name, workdir, rlimit=None, timeout=600):
                     int((re.search(r"--> [^\n:]+:(\d+)", b) or [0, 0])[1])) == fn)[:6000]
         else:
             ob.status = "discharged"
+    # an auxiliary item (lemma / helper) that fails makes every obligation relying on it unproved
+    aux_failed = [f for f in failed if f not in unit.functions and f not in unit.canaries]
+    if aux_failed:
+        res["machinery_error"] = "auxiliary proof item(s) failed: %s" % aux_failed
+        for fn, on in unit.functions.items():
+            ob = obs_by_name[on]
+            if ob.status == "discharged":
+                ob.status, ob.detail = "undecided", "auxiliary lemma %s did not verify" % aux_failed
     # vacuity guard: canaries must fail
     bad_canaries = [c for c in unit.canaries if c not in failed]
     if bad_canaries:
